@@ -53,6 +53,10 @@ class LayerDefModel:
             if not self.pending():
                 return MUST_REJECT, "modules-without-open-layer"
             names = args[0] if isinstance(args[0], list) else [args[0]]
+            if not names:
+                # an empty list supplies no module: whether it is accepted is not specified, but
+                # the layer has still not received its modules
+                return FREE, "containing_modules(empty)"
             if self.assigned().intersection(names):
                 form = "list" if isinstance(args[0], list) else "str"
                 return MUST_REJECT, f"module-assigned-twice({form})"
@@ -74,6 +78,8 @@ class LayerDefModel:
         name = self.layers[idx][0]
         if m == "containing_modules":
             names = list(args[0]) if isinstance(args[0], list) else [args[0]]
+            if not names:
+                return  # nothing supplied: the layer stays open
             self.layers[idx] = (name, ("mods", names))
         else:
             self.layers[idx] = (name, ("regex", args[0]))
